@@ -278,10 +278,10 @@ def run(ctx):
     with open(path, 'w') as f:
         for b in cases:
             f.write('BMP %s\n' % (b.hex() or '-'))
-    impl, _ = core.run_tool(ctx.harness, ['c15', 'obs', path])
+    impl, _ = core.run_tool_sharded(ctx.harness, ['c15', 'obs'], path)
     impl = [l for l in impl if l]
     if ctx.model:
-        model, _ = core.run_tool(ctx.model, ['c15', 'obs', path])
+        model, _ = core.run_tool_sharded(ctx.model, ['c15', 'obs'], path)
         model = [norm_line(l) for l in model if l]
         for k, a, b in core.diff_lines(model, [norm_line(l) for l in impl], limit=10):
             ctx.violation('model and implementation disagree on a BMP message', case=(b if b != '<missing>' else a).split(' ', 2)[1][:400],
